@@ -47,7 +47,26 @@ def _attempt(inp: Dict[str, Any]) -> Dict[str, Any]:
                     ch = np.array(inp["charge"], dtype=float)
                 if "mult" in inp:
                     mu = np.array(inp["mult"], dtype=float)
-                r = esh.run(s, x, sp, charges=ch, mult=(mu if inp.get("uhf") else None))
+                if inp.get("entry", "full") == "full":
+                    r = esh.run(s, x, sp, charges=ch, mult=(mu if inp.get("uhf") else None))
+                else:
+                    # the other public entry points: the driver without forces, and the energy class used directly (as training scripts do)
+                    from seqm.basics import Energy
+                    from seqm.ElectronicStructure import Electronic_Structure
+                    from seqm.Molecule import Molecule
+                    from seqm.seqm_functions.constants import Constants
+                    import copy as _copy
+                    spc = _copy.deepcopy(sp)
+                    kwm = {"charges": torch.as_tensor(ch)}
+                    if inp.get("uhf"):
+                        kwm["mult"] = torch.as_tensor(mu)
+                    mol = Molecule(Constants(), spc, torch.as_tensor(x), torch.as_tensor(s), **kwm)
+                    if inp["entry"] == "no_force":
+                        Electronic_Structure(spc)(mol, do_force=False)
+                        r = {"Etot": mol.Etot.detach().numpy()}
+                    else:
+                        out_ = Energy(spc)(mol, all_terms=True)
+                        r = {"Etot": out_[1].detach().numpy()}
         produced = {"Etot": np.asarray(r["Etot"]).tolist()}
         return {"raised": None, "produced": produced}
     except BaseException as e:  # noqa
@@ -80,6 +99,7 @@ def probe_reject(inp: Dict[str, Any]) -> Dict[str, Any]:
         mult = int(inp.get("mult", [1])[0]) if inp.get("uhf") else 1
         na = (nel + mult - 1) // 2 if inp.get("uhf") else nel // 2
         fields["full_shell"] = bool(na == norb)
+        fields["empty_shell"] = bool(nel == 0 or (inp.get("uhf") and nel - na == 0))
     return {"ok": ok, "observed": [obs], "expected": inp["expect"], "predicate": "documented precondition violated => error before any result; valid => accepted",
             "fields": fields}
 
@@ -141,6 +161,11 @@ def gen_cases(ctx: Ctx):
     # 7 unknown COM mode
     cases.append(("reject", {"kind": "remove_com", "mode": "rotational", "precondition": "remove_com_mode", "expect": R}))
     cases.append(("reject", {"kind": "remove_com", "mode": "angular", "precondition": "remove_com_mode", "expect": "accept"}))
+    # the same malformed requests through the other public entry points (energy without forces; the energy class directly)
+    es_rejects = [c for n_, c in cases if n_ == "reject" and c.get("kind") == "es" and c["expect"] == R]
+    for j, c in enumerate(es_rejects):
+        if ctx.thorough or (j + ctx.seed) % 3 == 0:
+            cases.append(("reject", dict(c, entry=["no_force", "energy_class"][(j + ctx.seed) % 2])))
     # generated malformed mode strings: fragments, concatenations, typos of the valid names (the code lower-cases and strips, so case/space variants are valid)
     valid = ["linear", "angular"]
     bad_modes = set(["", "linearangular", "angularlinear", "both", "none", "lin", "ang", "r", "l", "a"])
